@@ -2,13 +2,15 @@
 EXTENDS LatticeEval, Json, IOUtils, SequencesExt
 Q4(lo, hi) == {Norm(n, 4) : n \in (4 * lo - 2)..(4 * hi + 2)}
 Half(lo, hi) == {Norm(n, 2) : n \in (2 * lo - 1)..(2 * hi + 1)}
+\* a full cell and more beyond the range on either side (clipping must bring these back to the boundary vertices)
+Far(lo, hi) == {Norm(n, 2) : n \in {2 * lo - 3, 2 * lo - 2, 2 * hi + 3}}
 KBin == {0, 1}
 SizesQ == {<<2>>, <<3>>, <<2, 2>>, <<2, 3>>, <<3, 2>>}
-GridQ == Half(0, 2) \cup {<<1, 4>>, <<3, 4>>, <<5, 4>>}
+GridQ == Half(0, 2) \cup {<<1, 4>>, <<3, 4>>, <<5, 4>>} \cup Far(0, 2)
 SizesT1 == {<<4, 2>>, <<3, 3>>}
-GridT1 == Half(0, 3)
+GridT1 == Half(0, 3) \cup Far(0, 3)
 SizesT2 == {<<2, 2, 2>>, <<2, 3, 2>>}
-GridT2 == Half(0, 2)
+GridT2 == Half(0, 2) \cup {<<-3, 2>>, <<-1, 1>>, <<7, 2>>}
 CaseFile(sz, kd, xg) == [sizes |-> SetToSeq(sz), kvals |-> SetToSeq(kd), xgrid |-> SetToSeq(xg)]
 Tier == IOEnv.VERIF_TIER
 =============================================================================
